@@ -8,7 +8,7 @@ Init == l = 1 /\ bad = <<>>
 Exp(r) == [i \in 1..Len(r.arg) |-> LET x == TraverseSpec(r.in, r.arg[i], <<>>) IN [ok |-> x.ok, addr |-> x.addr]]
 Next == /\ l <= Len(Recs) /\ l' = l + 1
         /\ LET r == Recs[l] IN
-           bad' = IF Exp(r) = r.out THEN bad ELSE Append(bad, [line |-> l, exp |-> Exp(r)])
+           bad' = IF r.panic = "" /\ Exp(r) = r.out THEN bad ELSE Append(bad, [line |-> l, exp |-> Exp(r)])
 Spec == Init /\ [][Next]_<<l, bad>>
 Done == (l = Len(Recs) + 1) =>
           Serialize(ToJson([consumed |-> l - 1, lines |-> Len(Recs), bad |-> bad]) \o "\n", RESULT,
